@@ -17,6 +17,10 @@ import (
 	sdk "github.com/cosmos/cosmos-sdk/types"
 )
 
+// minStakeBoundaryEvents adds the two minimum-stake boundary events to the alphabet; set by the check whose property
+// speaks about the minimum stake (C07), whose run validates them - each check is its own process.
+var minStakeBoundaryEvents bool
+
 // FullAlphabet returns the deviation alphabet "every message type of every
 // module in valid / boundary / malformed variants" (DESIGN §C02). It is state
 // dependent only through getters (current cycle query, last dispute id, stored
@@ -156,6 +160,11 @@ func FullAlphabet(c *Cast) func(w *World) []Event {
 		add("Cyclelist(user,[eth])", "cyclelist/nonauth", func(w *World) sdk.Msg { return MsgCyclelist(c.Payer.Acc.String(), c.ETH) })
 		add("OracleParams(gov,minstake=0)", "oracleparams/0", func(w *World) sdk.Msg { return MsgOracleParams(w.Gov, 0) })
 		add("OracleParams(gov,minstake=1e12)", "oracleparams/big", func(w *World) sdk.Msg { return MsgOracleParams(w.Gov, 1_000_000_000_000) })
+		// the boundary of "holds at least the minimum stake": the minimum set to exactly R1's current stake (still allowed) and to one unit above it (no longer)
+		if minStakeBoundaryEvents {
+			add("OracleParams(gov,minstake=R1stake)", "oracleparams/at", func(w *World) sdk.Msg { st, _ := refReporterStake(w, c.R1.Acc); return MsgOracleParams(w.Gov, st.Int64()) })
+			add("OracleParams(gov,minstake=R1stake+1)", "oracleparams/above", func(w *World) sdk.Msg { st, _ := refReporterStake(w, c.R1.Acc); return MsgOracleParams(w.Gov, st.Int64()+1) })
+		}
 
 		// ---- registry
 		add("RegisterSpec(newq,median,w=0)", "register/w0", func(w *World) sdk.Msg { return MsgRegisterSpec(c.Payer.Acc, "newq", Spec("uint256", "weighted-median", 0)) })
